@@ -204,7 +204,7 @@ Definition rx_gbc (m : mib) (s : state) (now : Z) (g : geo) (bv cv body : list Z
               | Some false => (s1, ind)
               end
             end
-        else (s1, ind ++ [OFwd (gbc_packet bv cv h payload rhl')])
+        else (s1, ind)      (* no neighbour and SCF set: belongs in the BC forwarding buffer (a stub): nothing is sent *)
       end
     end
   end.
